@@ -181,7 +181,13 @@ func c05Docs() [][]refplay.Inst {
 	txt.Meta = map[string]string{"txt": "hello"}
 	txt.BPM = up(90)
 	rest := refplay.Inst{Values: one()}
+	ownKey := func(k string) refplay.Inst {
+		in := ch("1", "", ivp("5"))
+		in.Key = sp(k)
+		return in
+	}
 	return [][]refplay.Inst{
+		{ownKey("C"), ownKey("G"), ownKey("C"), ch("5", "7", nil)},
 		{ch("1", "", nil)},
 		{ch("1", "", nil), ch("5", "7", ivp("3")), ch("b6", "maj7", nil)},
 		{rest, ch("2", "m7", nil), rest, ch("#4", "dim", ivp("b7"))},
@@ -372,6 +378,31 @@ func runC05(e *Env) {
 			e.R.State("scale:" + k1.String())
 		}
 	}
+	// the same note-name spelling on both sides of a key change (a converter that remembers
+	// spellings must forget them when the key changes): V/3 in K = I/3 in the dominant key, IV/5 in K = I/5 in the subdominant key
+	for _, k0 := range keys {
+		for _, step := range []struct {
+			by            byte
+			before, after absChord
+		}{
+			{'d', absChord{Root: "5", Bass: "3"}, absChord{Root: "1", Bass: "3"}},
+			{'d', absChord{Root: "5", Symbol: "7"}, absChord{Root: "1", Symbol: "7"}},
+			{'s', absChord{Root: "4", Bass: "5"}, absChord{Root: "1", Bass: "5"}},
+			{'r', absChord{Root: "6", Symbol: "m", Bass: "b3"}, absChord{Root: "1", Symbol: "m", Bass: "b3"}},
+		} {
+			if k0.Minor && step.by == 'r' {
+				continue
+			}
+			pc, minor := k0.Step(step.by)
+			sp := theory.SpellingsOf(pc, minor)
+			if len(sp) == 0 {
+				continue
+			}
+			after := step.after
+			after.Key = sp[0]
+			kcases = append(kcases, c05Case{Key: k0.String(), Path: "lib", Chords: []absChord{step.before, {Root: "2", Symbol: "m"}, after, step.before, after}})
+		}
+	}
 	mc.ParFor(len(kcases), func(i int) {
 		c := kcases[i]
 		if !c05Eval(e, &c, false) {
@@ -407,6 +438,6 @@ func runC05(e *Env) {
 			c05TransposeEval(e, c)
 		}
 	})
-	e.R.AddPart(ev.Part{Name: "transposition", Enumerated: "6 documents (rests, settings, texts, inner key change) x all 28 x 28 pairs of --key values in-process; real binary for one pair per key and document (quick) / all pairs (thorough)", Executions: int64(len(tc)), Exhaustive: true})
+	e.R.AddPart(ev.Part{Name: "transposition", Enumerated: "7 documents (rests, settings, texts, inner key change, a later instance returning to the first instance's own key) x all 28 x 28 pairs of --key values in-process; real binary for one pair per key and document (quick) / all pairs (thorough)", Executions: int64(len(tc)), Exhaustive: true})
 	e.R.Sample(map[string]any{"key": "F#", "degree_text": "1[1] 3bm7/5[1]{key=Ebm} R[1] 5_7/3[1]", "name_text": "F#[1] Gbm7/Db[1]{key=Ebm} R[1] Bb_7/D[1]"})
 }
